@@ -1,9 +1,38 @@
-//! Native evaluation of the sampler (support / affine-map) predicates for decoded counterexamples.
+//! Native evaluation of the sampler predicates for decoded counterexamples: the distribution is built from the
+//! decoded parameter bits on the REAL crate and sampled with the decoded RNG words (then a seeded PRNG tail).
 use crate::rd;
-use crate::spec;
 use crate::ScriptRng;
 use rd::Distribution;
 
-pub fn replay_sampler(_id: &str, _fl: &str, _a: &[u64], _words: &[u64]) -> Option<(bool, String)> {
-    None
+macro_rules! one_draw {
+    ($F:ty, $from:expr, $id:expr, $a:expr, $words:expr) => {{
+        let f = $from;
+        let a: &[u64] = $a;
+        let words: &[u64] = $words;
+        let mut rng = ScriptRng::new(words, 0x5eed);
+        match $id {
+            "cauchy" if a.len() >= 2 => { let (m, s): ($F, $F) = (f(a[0]), f(a[1])); let d = rd::Cauchy::<$F>::new(m, s).ok()?;
+                let x: $F = d.sample(&mut rng); Some((!x.is_nan() && rng.drawn == 1, format!("Cauchy({:?}, {:?}).sample(words {:?}) = {:?}, {} word(s) drawn", m, s, words, x, rng.drawn))) }
+            "pareto" if a.len() >= 2 => { let (sc, sh): ($F, $F) = (f(a[0]), f(a[1])); let d = rd::Pareto::<$F>::new(sc, sh).ok()?;
+                let x: $F = d.sample(&mut rng); Some((!x.is_nan() && x >= sc && rng.drawn == 1, format!("Pareto({:?}, {:?}).sample(words {:?}) = {:?}, {} word(s) drawn", sc, sh, words, x, rng.drawn))) }
+            "weibull" if a.len() >= 2 => { let (sc, sh): ($F, $F) = (f(a[0]), f(a[1])); let d = rd::Weibull::<$F>::new(sc, sh).ok()?;
+                let x: $F = d.sample(&mut rng); Some((!x.is_nan() && x >= 0.0 && rng.drawn == 1, format!("Weibull({:?}, {:?}).sample(words {:?}) = {:?}, {} word(s) drawn", sc, sh, words, x, rng.drawn))) }
+            "gumbel" if a.len() >= 2 => { let (l, s): ($F, $F) = (f(a[0]), f(a[1])); let d = rd::Gumbel::<$F>::new(l, s).ok()?;
+                let x: $F = d.sample(&mut rng); Some((x.is_finite() && rng.drawn == 1, format!("Gumbel({:?}, {:?}).sample(words {:?}) = {:?}, {} word(s) drawn", l, s, words, x, rng.drawn))) }
+            "frechet" if a.len() >= 3 => { let (l, s, sh): ($F, $F, $F) = (f(a[0]), f(a[1]), f(a[2])); let d = rd::Frechet::<$F>::new(l, s, sh).ok()?;
+                let x: $F = d.sample(&mut rng); Some((!x.is_nan() && x >= l && rng.drawn == 1, format!("Frechet({:?}, {:?}, {:?}).sample(words {:?}) = {:?}, {} word(s) drawn", l, s, sh, words, x, rng.drawn))) }
+            "triangular" if a.len() >= 3 => { let (mn, mx, md): ($F, $F, $F) = (f(a[0]), f(a[1]), f(a[2])); let d = rd::Triangular::<$F>::new(mn, mx, md).ok()?;
+                let x: $F = d.sample(&mut rng); Some((!x.is_nan() && rng.drawn == 1, format!("Triangular({:?}, {:?}, {:?}).sample(words {:?}) = {:?}, {} word(s) drawn", mn, mx, md, words, x, rng.drawn))) }
+            _ => None,
+        }
+    }};
+}
+
+pub fn replay_sampler(id: &str, fl: &str, a: &[u64], words: &[u64]) -> Option<(bool, String)> {
+    if let Some(r) = crate::samplers2::replay_sampler2(id, fl, a, words) { return Some(r); }
+    match fl {
+        "f64" => one_draw!(f64, |b: u64| f64::from_bits(b), id, a, words),
+        "f32" => one_draw!(f32, |b: u64| f32::from_bits(b as u32), id, a, words),
+        _ => None,
+    }
 }
